@@ -85,7 +85,7 @@ func tmCase(c *core.Ctx, rng *rand.Rand) {
 				refused++
 			} else {
 				// handled by a pool worker: wait until handleResponse has run (it always counts the response)
-				for k := 0; k < 20000; k++ {
+				for end := time.Now().Add(time.Second); time.Now().Before(end); {
 					if now, _, _, _, _ := root.Ctx.VerifState(); now != before {
 						break
 					}
